@@ -6,7 +6,7 @@ use crate::refnet::{RLayer, RefNet};
 use crate::regions::Config;
 use crate::report::{catch, par_cases, CaseOut, Report, Tier, Violation};
 use crate::snap::{conform, conform_face, snap, TreeSide};
-use affinitree::distill::builder::{afftree_from_layers, Layer};
+use affinitree::distill::builder::{afftree_from_layers, afftree_from_layers_csv, Layer};
 use affinitree::linalg::affine::Polytope;
 use affinitree::pwl::afftree::AffTree;
 use ndarray::{Array1, Array2};
@@ -74,10 +74,15 @@ impl Net {
         }
     }
     pub fn layers(&self) -> Vec<Layer> {
+        self.layers_layout(false)
+    }
+    /// `fortran`: weight matrices stored column-major
+    pub fn layers_layout(&self, fortran: bool) -> Vec<Layer> {
         let mut v = vec![];
         for b in &self.blocks {
             let indim = b.w.first().map(|r| r.len()).unwrap_or(0);
-            v.push(Layer::Linear(Aff::with_indim(b.w.clone(), b.b.clone(), indim).to_real()));
+            let a = Aff::with_indim(b.w.clone(), b.b.clone(), indim);
+            v.push(Layer::Linear(if fortran { a.to_real_f() } else { a.to_real() }));
             let idx: Vec<usize> = if b.rev { (0..b.acts.len()).rev().collect() } else { (0..b.acts.len()).collect() };
             for i in idx {
                 match b.acts[i] {
@@ -102,9 +107,13 @@ impl Net {
         v
     }
     pub fn precondition_tree(&self) -> Option<AffTree<2>> {
+        self.precondition_tree_layout(false)
+    }
+    pub fn precondition_tree_layout(&self, fortran: bool) -> Option<AffTree<2>> {
+        use ndarray::ShapeBuilder;
         let poly = |rows: &Vec<(Vec<f64>, f64)>| {
             let n = rows[0].0.len();
-            let mut m = Array2::<f64>::zeros((rows.len(), n));
+            let mut m = if fortran { Array2::<f64>::zeros((rows.len(), n).f()) } else { Array2::<f64>::zeros((rows.len(), n)) };
             let mut b = Array1::<f64>::zeros(rows.len());
             for (i, (a, bb)) in rows.iter().enumerate() {
                 for j in 0..n {
@@ -390,9 +399,13 @@ pub fn families(tier: Tier) -> Vec<Family> {
 pub fn check_net(net: &Net) -> CaseOut {
     let mut out = CaseOut::default();
     let rec = net.to_json();
-    let layers = net.layers();
-    let pre = net.precondition_tree();
+    // deterministic per-network choices: storage order of the weight matrices; the csv-logging entry point as twin
+    let h = rec.to_string().bytes().fold(0xcbf29ce484222325u64, |h, b| (h ^ b as u64).wrapping_mul(0x100000001b3));
+    let fortran = h % 2 == 1;
+    let layers = net.layers_layout(fortran);
+    let pre = net.precondition_tree_layout(fortran);
     out.add("real_executions", 1);
+    out.add("networks_with_column_major_weights", fortran as u64);
     let tree = match catch(|| afftree_from_layers(net.n, &layers, pre)) {
         Ok(t) => t,
         Err(msg) => {
@@ -401,6 +414,22 @@ pub fn check_net(net: &Net) -> CaseOut {
         }
     };
     let s = snap(&tree);
+    if (h >> 8) % 8 == 0 {
+        let dir = "/verif/.work/c01";
+        let _ = std::fs::create_dir_all(dir);
+        let path = format!("{dir}/distill_{}.csv", rayon::current_thread_index().unwrap_or(0));
+        let pre2 = net.precondition_tree_layout(fortran);
+        out.add("real_executions", 1);
+        out.add("csv_twin_runs", 1);
+        match catch(|| afftree_from_layers_csv(net.n, &layers, &path, pre2)) {
+            Err(msg) => out.violate(Violation::new(format!("afftree_from_layers_csv panicked where afftree_from_layers did not: {msg}"), rec.clone()).tag("kind", "variant")),
+            Ok(t2) => {
+                if snap(&t2) != s {
+                    out.violate(Violation::new("afftree_from_layers_csv and afftree_from_layers build different trees", json!({"network": rec.clone(), "arena": s.to_json(), "arena_csv": snap(&t2).to_json()})).tag("kind", "variant"));
+                }
+            }
+        }
+    }
     let mode = net.mode();
     let rf = net.reference();
     let mut cfg = Config::default();
